@@ -69,32 +69,30 @@ func VerifNoPanic_StripPathElemPrefixPath() {
 }
 
 // VerifNoPanic_StripPathElemPrefixPathProto: ... and on a protobuf-valid path
-// that did not go through the parser (0-2 elements, 0-2 keys, nil elements and
-// nil key maps are protobuf-valid).
+// that did not go through the parser (0-2 elements, 0-2 keys; a nil *Path and
+// nil key maps are protobuf-valid, nil elements are not).
 func VerifNoPanic_StripPathElemPrefixPathProto() {
-	const alpha = ":/ab"
-	n := verifrt.Param("strLen", 3)
+	const alpha = ":/a"
+	n := verifrt.Param("strLen", 2)
 	var p *sdcpb.Path
-	switch verifrt.Choice("shape", 6) {
+	switch verifrt.Choice("shape", 5) {
 	case 0:
 		p = nil
 	case 1:
 		p = &sdcpb.Path{}
 	case 2:
-		p = &sdcpb.Path{Elem: []*sdcpb.PathElem{nil}}
-	case 3:
 		p = &sdcpb.Path{Elem: []*sdcpb.PathElem{{Name: verifrt.String("n0", n, alpha)}}}
-	case 4:
+	case 3:
 		p = &sdcpb.Path{Elem: []*sdcpb.PathElem{{Name: verifrt.String("n0", n, alpha),
 			Key: map[string]string{verifrt.String("k0", n, alpha): verifrt.String("v0", n, alpha)}}}}
-	case 5:
+	case 4:
 		k0, k1 := verifrt.String("k0", n, alpha), verifrt.String("k1", n, alpha)
 		verifrt.Assume(k0 != k1)
 		p = &sdcpb.Path{Elem: []*sdcpb.PathElem{
-			{Name: verifrt.String("n0", n, alpha)},
-			{Name: verifrt.String("n1", n, alpha), Key: map[string]string{
+			{Name: "x"},
+			{Name: "y", Key: map[string]string{
 				k0: verifrt.String("v0", n, alpha),
-				k1: verifrt.String("v1", n, alpha)}}}}
+				k1: "p:q/r:s"}}}}
 	}
 	verifrt.Reach("built")
 	StripPathElemPrefixPath(p)
@@ -110,27 +108,31 @@ func VerifNoPanic_CompletePathFromString() {
 	verifrt.Reach("returned")
 }
 
-// VerifNoPanic_CompletePath: prefix and path both parsed from arbitrary strings
-// (or absent).
+// VerifNoPanic_CompletePath: one of prefix / path is parsed from an arbitrary
+// string, the other is one of the protobuf-valid shapes that steer
+// CompletePath's origin handling (absent, origin only, elements only, both).
 func VerifNoPanic_CompletePath() {
-	n := verifrt.Param("pathLen2", 3)
-	var pre, pth *sdcpb.Path
-	if verifrt.Choice("havePrefix", 2) == 1 {
-		var err error
-		pre, err = ParsePath(verifrt.String("pre", n, vc20Alphabet))
-		if err != nil {
-			return
-		}
-	}
-	if verifrt.Choice("havePath", 2) == 1 {
-		var err error
-		pth, err = ParsePath(verifrt.String("pth", n, vc20Alphabet))
-		if err != nil {
-			return
-		}
+	parsed, err := ParsePath(vc20PathString("s"))
+	if err != nil {
+		return
 	}
 	verifrt.Reach("accepted")
-	_, _ = CompletePath(pre, pth)
+	var other *sdcpb.Path
+	switch verifrt.Choice("other", 5) {
+	case 1:
+		other = &sdcpb.Path{}
+	case 2:
+		other = &sdcpb.Path{Origin: "o"}
+	case 3:
+		other = &sdcpb.Path{Elem: []*sdcpb.PathElem{{Name: "x"}, {}}}
+	case 4:
+		other = &sdcpb.Path{Origin: "o", Target: "t", Elem: []*sdcpb.PathElem{{Name: "x", Key: map[string]string{"k": "v", "j": "w"}}}}
+	}
+	if verifrt.Choice("parsedIsPrefix", 2) == 1 {
+		_, _ = CompletePath(parsed, other)
+	} else {
+		_, _ = CompletePath(other, parsed)
+	}
 	verifrt.Reach("returned")
 }
 
